@@ -15,7 +15,7 @@ from vlib import ToolError, log
 EXT = {"ts": ".ts", "dts": ".d.ts", "tsx": ".tsx"}
 # nested directories, the same base name everywhere (generated identifiers are built from the paths)
 # (a/b/t.ts and a_b/t.ts differ only in a separator that generated identifiers replace by "_")
-FPATH = {"entry": "entry", "m1": "a/b/t", "m2": "a/c/t", "m3": "a_b/t", "hop": "hop"}
+FPATH = {"entry": "entry", "m1": "a/b/t", "m2": "a/c/t", "m3": "c/t", "m4": "a_b/t", "hop": "hop"}
 
 
 def spec_from(frm, to):
@@ -28,7 +28,7 @@ def render(L):
     place, exp, kind = L["place"], L["exp"], L["kind"]
     imp = {(s["u"], s["d"]): s["st"] for s in L["imp"]}
     broken = (L["broken"]["u"], L["broken"]["d"])
-    files = {"entry": [], "m1": [], "m2": [], "m3": []}
+    files = {"entry": [], "m1": [], "m2": [], "m3": [], "m4": []}
     bound = {f: {} for f in files}         # file -> local name -> True
     hop = []
 
